@@ -49,7 +49,7 @@ def _(query_context: Obj['rbql_engine.RBQLContext'], sort_key: Opt[Key], out_fie
     modifies(region(query_context.writer), contents(out_fields))
 
 
-@contract('gen:select_simple', name='C01.loop.select_simple', props=['C01', 'C14', 'C15', 'C06'], subst={'HAS_WHERE': True, 'HAS_SORT': True})
+@contract('gen:select_simple', name='C01.loop.select_simple', props=['C01', 'C14', 'C15', 'C06'], subst={'HAS_WHERE': True, 'HAS_SORT': True, 'VARIANT': 0})
 def _(query_context: Obj['rbql_engine.RBQLContext'], user_namespace: Opaque, LIKE: Opaque, UNNEST: Cls['rbql_engine.compile_and_run.UNNEST'],
       ANY_VALUE: Opaque, MIN: Opaque, MAX: Opaque, COUNT: Opaque, SUM: Opaque, AVG: Opaque, VARIANCE: Opaque, MEDIAN: Opaque,
       ARRAY_AGG: Opaque, mad_max: Opaque, mad_min: Opaque, mad_sum: Opaque, select_unnested: Fn['rbql_engine.compile_and_run.select_unnested']):
@@ -62,29 +62,39 @@ def _(query_context: Obj['rbql_engine.RBQLContext'], user_namespace: Opaque, LIK
               and ctx_inv(query_context) and query_context.aggregation_stage == 0
               and query_context.input_iterator.rows == old(query_context.input_iterator.rows), 'config')
     invariant(0, NR == query_context.input_iterator.pos and 0 <= NR and NR <= len(query_context.input_iterator.rows), 'NR_is_position')
-    invariant(0, query_context.writer.offered == old(query_context.writer.offered) + sel_out(query_context.input_iterator.rows, NR, HAS_WHERE), 'offered')
+    invariant(0, query_context.writer.offered == old(query_context.writer.offered) + sel_out(query_context.input_iterator.rows, NR, HAS_WHERE, VARIANT), 'offered')
     invariant(0, stop_flag == query_context.writer.refused and not query_context.writer.finished, 'stop_flag')
-    invariant(0, forall(Int, lambda k: implies(1 <= k and k <= NR, not rec_fail(query_context.input_iterator.rows[k - 1], k, HAS_WHERE, HAS_SORT))), 'no_failure_so_far')
+    invariant(0, forall(Int, lambda k: implies(1 <= k and k <= NR, not rec_fail(query_context.input_iterator.rows[k - 1], k, HAS_WHERE, HAS_SORT, VARIANT))), 'no_failure_so_far')
     # C01: exactly one projected record per record passing WHERE, in input order, for the records consumed
-    ensures(query_context.writer.offered == old(query_context.writer.offered) + sel_out(query_context.input_iterator.rows, query_context.input_iterator.pos, HAS_WHERE), 'output_is_projection_of_matching_records')
+    ensures(query_context.writer.offered == old(query_context.writer.offered) + sel_out(query_context.input_iterator.rows, query_context.input_iterator.pos, HAS_WHERE, VARIANT), 'output_is_projection_of_matching_records')
     ensures(query_context.writer.refused or query_context.input_iterator.pos == len(query_context.input_iterator.rows), 'all_input_consumed_unless_refused')
     ensures(not query_context.writer.finished, 'typestate')
     # C14: a failing expression is reported for the first offending record, nothing is offered for it
     raises('rbql_engine.RbqlRuntimeError',
-           rec_fail(query_context.input_iterator.rows[query_context.input_iterator.pos - 1], query_context.input_iterator.pos, HAS_WHERE, HAS_SORT)
-           and forall(Int, lambda k: implies(1 <= k and k < query_context.input_iterator.pos, not rec_fail(query_context.input_iterator.rows[k - 1], k, HAS_WHERE, HAS_SORT)))
-           and query_context.writer.offered == old(query_context.writer.offered) + sel_out(query_context.input_iterator.rows, query_context.input_iterator.pos - 1, HAS_WHERE)
+           rec_fail(query_context.input_iterator.rows[query_context.input_iterator.pos - 1], query_context.input_iterator.pos, HAS_WHERE, HAS_SORT, VARIANT)
+           and forall(Int, lambda k: implies(1 <= k and k < query_context.input_iterator.pos, not rec_fail(query_context.input_iterator.rows[k - 1], k, HAS_WHERE, HAS_SORT, VARIANT)))
+           and query_context.writer.offered == old(query_context.writer.offered) + sel_out(query_context.input_iterator.rows, query_context.input_iterator.pos - 1, HAS_WHERE, VARIANT)
            and str_contains(exc_msg(), 'record ' + str_of_int(query_context.input_iterator.pos)), 'names_first_offending_record')
     raises('rbql_engine.RbqlParsingError',
-           rec_fail(query_context.input_iterator.rows[query_context.input_iterator.pos - 1], query_context.input_iterator.pos, HAS_WHERE, HAS_SORT)
-           and query_context.writer.offered == old(query_context.writer.offered) + sel_out(query_context.input_iterator.rows, query_context.input_iterator.pos - 1, HAS_WHERE), 'parsing_error_passes_through')
+           rec_fail(query_context.input_iterator.rows[query_context.input_iterator.pos - 1], query_context.input_iterator.pos, HAS_WHERE, HAS_SORT, VARIANT)
+           and query_context.writer.offered == old(query_context.writer.offered) + sel_out(query_context.input_iterator.rows, query_context.input_iterator.pos - 1, HAS_WHERE, VARIANT), 'parsing_error_passes_through')
     loop_types(0, record_a=Opt[List[Cell]], NF=Int, out_fields=List[Cell], sort_key=Opt[Key], a1=Cell, a3=Cell, aNR=Int, a=Obj['rbql_engine.RBQLRecord'], key=Opaque, star_fields=List[Cell])
     modifies(query_context, query_context.input_iterator, region(query_context.writer))
 
 
-@contract('gen:select_simple_nowhere', name='C01.loop.select_simple_nowhere', props=['C01', 'C14', 'C15', 'C06'], like='gen:select_simple', subst={'HAS_WHERE': False, 'HAS_SORT': False})
+@contract('gen:select_simple_nowhere', name='C01.loop.select_simple_nowhere', props=['C01', 'C14', 'C15', 'C06'], like='gen:select_simple', subst={'HAS_WHERE': False, 'HAS_SORT': False, 'VARIANT': 0})
 def _():
     pass
+
+
+@contract('gen:select_star', name='C01.loop.select_star', props=['C01', 'C14', 'C15', 'C06'], like='gen:select_simple', subst={'HAS_WHERE': True, 'HAS_SORT': False, 'VARIANT': 1})
+def _():
+    pass
+
+
+@contract('gen:select_except', name='C01.loop.select_except', props=['C01', 'C14', 'C15', 'C06'], like='gen:select_simple', subst={'HAS_WHERE': True, 'HAS_SORT': False, 'VARIANT': 2})
+def _():
+    local_types(__lit=List[Int])
 
 
 @trusted('rbql_engine.select_aggregated', name='C03.select_aggregated', trusted='PENDING: contract not yet proved against the body (aggregation path); callers only rely on its precondition')
@@ -272,3 +282,38 @@ def _(query_context: Obj['rbql_engine.RBQLContext'], user_namespace: Opaque, LIK
            upd_fail(query_context.input_iterator.rows[query_context.input_iterator.pos - 1], query_context.input_iterator.pos, nu_upto(query_context.input_iterator.rows, query_context.input_iterator.pos - 1, HAS_WHERE), HAS_WHERE), 'parsing_error_passes_through')
     loop_types(0, record_a=Opt[List[Cell]], NF=Int, up_fields=List[Cell], a1=Cell, a3=Cell, aNR=Int, a=Obj['rbql_engine.RBQLRecord'])
     modifies(query_context, query_context.input_iterator, region(query_context.writer))
+
+
+@contract('gen:update_join', name='C05.loop.update_join', props=['C05', 'C04', 'C14', 'C15', 'C06'])
+def _(query_context: Obj['rbql_engine.RBQLContext'], user_namespace: Opaque, LIKE: Opaque, UNNEST: Cls['rbql_engine.compile_and_run.UNNEST'],
+      ANY_VALUE: Opaque, MIN: Opaque, MAX: Opaque, COUNT: Opaque, SUM: Opaque, AVG: Opaque, VARIANCE: Opaque, MEDIAN: Opaque,
+      ARRAY_AGG: Opaque, mad_max: Opaque, mad_min: Opaque, mad_sum: Opaque, select_unnested: Fn['rbql_engine.compile_and_run.select_unnested']):
+    requires(uctx_inv(query_context) and not is_none(query_context.join_map), 'ctx')
+    requires(query_context.input_iterator.pos == 0, 'iterator_fresh')
+    requires(not query_context.writer.finished and not query_context.writer.refused, 'writer_open')
+    invariant(0, same(query_context.input_iterator, old(query_context.input_iterator)) and same(query_context.writer, old(query_context.writer))
+              and same(query_context.join_map, old(query_context.join_map)) and not is_none(query_context.join_map)
+              and uctx_inv(query_context) and query_context.input_iterator.rows == old(query_context.input_iterator.rows), 'config')
+    invariant(0, NR == query_context.input_iterator.pos and 0 <= NR and NR <= len(query_context.input_iterator.rows), 'NR_is_position')
+    invariant(0, NU == uj_nu(query_context.input_iterator.rows, NR, query_context.join_map.kind, query_context.join_map.jmv, query_context.join_map.nullw), 'NU_counts_updated_records')
+    invariant(0, query_context.writer.offered == old(query_context.writer.offered)
+              + uj_out(query_context.input_iterator.rows, NR, query_context.join_map.kind, query_context.join_map.jmv, query_context.join_map.nullw), 'offered')
+    invariant(0, stop_flag == query_context.writer.refused and not query_context.writer.finished, 'stop_flag')
+    invariant(0, forall(Int, lambda k: implies(1 <= k and k <= NR, not uj_fail(query_context.input_iterator.rows[k - 1], k, query_context.join_map.kind, query_context.join_map.jmv, query_context.join_map.nullw,
+                                                                                 uj_nu(query_context.input_iterator.rows, k - 1, query_context.join_map.kind, query_context.join_map.jmv, query_context.join_map.nullw)))), 'no_failure_so_far')
+    # C05 with a join: every A record emitted once; no partner -> unchanged, one partner (and WHERE) -> assigned fields change, several -> error
+    ensures(query_context.writer.offered == old(query_context.writer.offered)
+            + uj_out(query_context.input_iterator.rows, query_context.input_iterator.pos, query_context.join_map.kind, query_context.join_map.jmv, query_context.join_map.nullw), 'every_record_emitted_once')
+    ensures(query_context.writer.refused or query_context.input_iterator.pos == len(query_context.input_iterator.rows), 'all_input_consumed_unless_refused')
+    raises('rbql_engine.RbqlRuntimeError',
+           uj_fail(query_context.input_iterator.rows[query_context.input_iterator.pos - 1], query_context.input_iterator.pos, query_context.join_map.kind, query_context.join_map.jmv, query_context.join_map.nullw,
+                   uj_nu(query_context.input_iterator.rows, query_context.input_iterator.pos - 1, query_context.join_map.kind, query_context.join_map.jmv, query_context.join_map.nullw))
+           and query_context.writer.offered == old(query_context.writer.offered)
+           + uj_out(query_context.input_iterator.rows, query_context.input_iterator.pos - 1, query_context.join_map.kind, query_context.join_map.jmv, query_context.join_map.nullw)
+           and str_contains(exc_msg(), 'record ' + str_of_int(query_context.input_iterator.pos)), 'names_first_offending_record')
+    raises('rbql_engine.RbqlParsingError',
+           uj_fail(query_context.input_iterator.rows[query_context.input_iterator.pos - 1], query_context.input_iterator.pos, query_context.join_map.kind, query_context.join_map.jmv, query_context.join_map.nullw,
+                   uj_nu(query_context.input_iterator.rows, query_context.input_iterator.pos - 1, query_context.join_map.kind, query_context.join_map.jmv, query_context.join_map.nullw)), 'parsing_error_passes_through')
+    loop_types(0, record_a=Opt[List[Cell]], NF=Int, up_fields=List[Cell], a1=Cell, a3=Cell, b2=Cell, aNR=Int, a=Obj['rbql_engine.RBQLRecord'], b=Obj['rbql_engine.RBQLRecord'],
+               join_matches=List[Tuple[Opt[Int], Int, Rec]], bNR=Opt[Int], bNF=Opt[Int], record_b=Opt[List[Cell]])
+    modifies(query_context, query_context.input_iterator, region(query_context.writer), family('joiner'))
